@@ -17,11 +17,23 @@ package message
 import (
 	"encoding/binary"
 	"fmt"
+	"sync/atomic"
 )
 
 var (
 	gPacketID uint64 = 0
 )
+
+// nextPacketID returns the next automatically assigned packet identifier.
+// Identifier 0 is not allowed by MQTT (and means "not set" in SetPacketID), so
+// it is skipped whenever the low 16 bits of the counter wrap around.
+func nextPacketID() uint16 {
+	for {
+		if id := uint16(atomic.AddUint64(&gPacketID, 1)); id != 0 {
+			return id
+		}
+	}
+}
 
 // Fixed header
 // - 1 byte for control packet type (bits 7-4) and flags (bits 3-0)
@@ -189,6 +201,10 @@ func (h *header) encode(dst []byte) (int, error) {
 func (h *header) decode(src []byte) (int, error) {
 	total := 0
 
+	if len(src) < 1 {
+		return total, fmt.Errorf("header/Decode: Insufficient buffer size. Expecting at least 1, got 0")
+	}
+
 	h.dbuf = src
 
 	mtype := h.Type()
@@ -216,6 +232,9 @@ func (h *header) decode(src []byte) (int, error) {
 	total++
 
 	remlen, m := binary.Uvarint(src[total:])
+	if m <= 0 || m > maxFixedHeaderLength-1 {
+		return total, fmt.Errorf("header/Decode: Remaining length is incomplete or longer than %d bytes", maxFixedHeaderLength-1)
+	}
 	total += m
 	h.remlen = int32(remlen)
 
@@ -226,6 +245,9 @@ func (h *header) decode(src []byte) (int, error) {
 	if int(h.remlen) > len(src[total:]) {
 		return total, fmt.Errorf("header/Decode: Remaining length (%d) is greater than remaining buffer (%d)", h.remlen, len(src[total:]))
 	}
+
+	// The decoding buffer is this packet only, not what follows it in src.
+	h.dbuf = src[:total+int(h.remlen)]
 
 	return total, nil
 }
